@@ -21,6 +21,20 @@ sys.path.insert(0, os.path.dirname(os.path.abspath(__file__)))
 import vlib
 from vlib import Check, make_cfg, run_tlc, Infra
 
+# proposed known findings can be tried out without touching known_findings.json: VERIF_KNOWN_EXTRA=<file with {"findings": [...]}>
+_load_known = vlib.load_known
+
+
+def _load_known_plus():
+    out = list(_load_known())
+    extra = os.environ.get("VERIF_KNOWN_EXTRA")
+    if extra and os.path.exists(extra):
+        out += json.load(open(extra)).get("findings", [])
+    return out
+
+
+vlib.load_known = _load_known_plus
+
 OWNER = {
     "not_live": "C06", "not_admissible": "C06", "duplicate": "C06", "too_many": "C06", "order": "C06",
     "score_mismatch": "C06", "stored_vector_mismatch": "C06", "stored_unreadable": "C06",
@@ -253,3 +267,342 @@ def replay_family(chk, fam, totals, light, work):
         chk.infra.append("replay %s: %d of %d behaviours executed" % (fam.name, res.get("behaviours", 0), len(fam.behaviours)))
     fam.profile = prof
     return res.get("divergences", [])
+
+
+# ------------------------------------------------------------------ backward: recall traces validated by TLC
+
+RECALL_PROFILE = {"m": 8, "efc": 64}
+
+# Floors (percent) of Trace_Search.tla. Measured on the unchanged tree (and on the tree carrying the proposed fixes)
+# over seeds 1..20 x 4 profiles x dimensions {2,3,4,6,8} (80 traces, ~64,000 searches): minima over all phases
+MEASURED = {
+    "euclid": {"hi": 97.4, "lo": 90.0, "self": 92.0},
+    "cosine": {"hi": 71.4, "lo": 80.0, "self": 64.0},
+}
+FLOORS = {
+    "euclid": {"FloorHi": 85, "FloorLo": 70, "FloorSelf": 70},
+    "cosine": {"FloorHi": 50, "FloorLo": 55, "FloorSelf": 40},
+}
+NOFLOORS = {"FloorHi": 0, "FloorLo": 0, "FloorSelf": 0}
+DIMS = [2, 3, 4, 6, 8]
+
+
+def recall_plans(pnames, seeds, work, n_single=100, n_batch=80, n_import=80, stored=25, foreign=10, dims=None):
+    plans = []
+    for pname in pnames:
+        for sd in seeds:
+            dim = (dims or DIMS)[(sd + len(pname) + ord(pname[0])) % len(dims or DIMS)]
+            prof = dict(PROFILES[pname], m=RECALL_PROFILE["m"], efc=RECALL_PROFILE["efc"], lang="")
+            plans.append({"profile": prof, "dim": dim, "seed": sd, "single": n_single, "batch": n_batch, "import": n_import,
+                          "stored": stored, "foreign": foreign, "range": 3,
+                          "trace": os.path.join(work, "trace_%s_%d.ndjson" % (pname, sd)), "pname": pname})
+    return plans
+
+
+def record_traces(chk, plans, shards=None):
+    binary = build_vsearch()
+    res = vlib.run_sharded(binary, "recall", {}, plans, payload_key="plans", timeout=1800, shards=shards)
+    for e in res.get("errors", []):
+        chk.infra.append("recall recording error: %s" % e)
+    return res.get("runs", [])
+
+
+def validate_trace(plan, floors, check_adm, timeout=1200):
+    int8 = "int8" in (plan["profile"]["prec"], plan["profile"]["compress_to"])
+    consts = dict(floors, Metric='"%s"' % plan["profile"]["metric"], CheckOrder="FALSE" if int8 else "TRUE",
+                  CheckAdm="TRUE" if check_adm else "FALSE")
+    cfg = make_cfg("TraceSpec", consts, ["Inv_Trace"], [])
+    return run_tlc("Trace_Search", "trace_%s_%d.cfg" % (plan["pname"], plan["seed"]), cfg_text=cfg, workers=1, timeout=timeout,
+                   env_extra={"TRACE": plan["trace"]})
+
+
+def backward(chk, prop, plans, stats, par=8):
+    """Record the traces on the real engine, let TLC validate them; returns the divergences (dicts)."""
+    t0 = time.time()
+    runs = {r["trace"]: r for r in record_traces(chk, plans)}
+    stats["record_wall_s"] = round(time.time() - t0, 1)
+    divs = []
+
+    def one(plan):
+        run = runs.get(plan["trace"])
+        if run is None or run.get("error"):
+            return plan, run, None
+        floors = FLOORS[plan["profile"]["metric"]] if prop == "C07" else NOFLOORS
+        return plan, run, validate_trace(plan, floors, check_adm=(prop == "C06"))
+
+    t0 = time.time()
+    with ThreadPoolExecutor(par) as ex:
+        results = list(ex.map(one, plans))
+    stats["validate_wall_s"] = round(time.time() - t0, 1)
+    for plan, run, r in results:
+        if r is None:
+            chk.infra.append("trace %s was not recorded: %s" % (plan["trace"], (run or {}).get("error")))
+            continue
+        name = "trace_%s_seed%d_dim%d" % (plan["pname"], plan["seed"], plan["dim"])
+        chk.cov["tlc_runs"].append({"config": name, "mode": "trace validation", "lines": run["lines"], "depth": r.depth, "searches": run["searches"],
+                                    "distinct_states": r.distinct, "wall_s": round(r.wall, 1), "ok": r.ok})
+        chk.cov["states"] += r.distinct
+        chk.cov["transitions"] += r.generated
+        stats["traces"] = stats.get("traces", 0) + 1
+        stats["trace_searches"] = stats.get("trace_searches", 0) + run["searches"]
+        stats["trace_lines"] = stats.get("trace_lines", 0) + run["lines"]
+        if run.get("restart_lost"):
+            stats["restart_lost_traces"] = stats.get("restart_lost_traces", 0) + 1
+        for rec in r.printed.get("RECALL", []):
+            for cls in ("hi", "lo", "self"):
+                if rec[cls + "N"]:
+                    pct = round(100.0 * rec[cls] / rec[cls + "N"], 1)
+                    key = "%s/%s" % (plan["profile"]["metric"], cls)
+                    cur = stats.setdefault("recall_min", {}).get(key)
+                    if cur is None or pct < cur["pct"]:
+                        stats["recall_min"][key] = {"pct": pct, "phase": rec["name"], "profile": plan["pname"], "seed": plan["seed"], "dim": plan["dim"], "index_size": rec["size"]}
+        if r.violated == "Inv_Trace":
+            text = r.trace[-1] if r.trace else ""
+            what = "recall_below_floor" if "recall_below_floor" in text else "trace_inadmissible"
+            m = re.search(r"bad = (<<.*>>)", text, re.S)
+            divs.append({"id": name, "step": 0, "kind": what, "op": {"op": "trace"}, "detail": (m.group(1) if m else text)[:1500],
+                         "diff": ["floors=%s" % json.dumps(FLOORS[plan["profile"]["metric"]])], "plan": plan})
+        elif not r.ok:
+            chk.infra.append("TLC failed on %s: %s" % (name, (r.error or r.raw_tail)[:1500]))
+        elif r.depth != run["lines"] + 1:
+            chk.infra.append("trace %s: TLC consumed %d of %d lines" % (name, r.depth - 1, run["lines"]))
+    return divs
+
+
+# ------------------------------------------------------------------ design level
+
+def design(chk, quick):
+    out = []
+    rng = random.Random(7)
+    ds = make_dataset(rng, "euclid", 2, 3)
+    consts = constants("e32", 3, False, 2 if quick else 4)
+    consts.update(OpKinds="<- c_OpsTiny", Combos="<- c_CombosTiny", MaxAdds=4)
+    cfg = make_cfg("SpecSearch", consts, ["Inv_Hist", "Inv_SearchSound", "Inv_SearchEnabled"], [])
+    out.append(("Search_action", "MC_Search_gen", cfg, {"MC_Search_gen.tla": gen_module(ds, [])}, None))
+    lay = {"Metric": '"euclid"', "LN": 3, "LKs": "{1, 2}", "LEfs": "{0, 1, 3}"}
+    small = dict(lay, LVecs="<- c_LVecs2", LQs="<- c_LQs1")
+    full = dict(lay, LVecs="<- c_LVecs3", LQs="<- c_LQs2")
+    out.append(("SearchLayer_premise", "MC_SearchLayer", make_cfg("SpecLayer", dict(small if quick else full, Premise="TRUE"), ["LSound", "LExact"],
+                                                                 [] if quick else ["LTerminates"]), None, None))
+    tiny = dict(small, LKs="{2}", LEfs="{1}")
+    out.append(("SearchLayer_any_graph", "MC_SearchLayer", make_cfg("SpecLayer", dict(tiny if quick else small, Premise="FALSE"), ["LSound"], []), None, None))
+    out.append(("SearchLayer_vacuity", "MC_SearchLayer", make_cfg("SpecLayer", dict(tiny, Premise="FALSE"), ["LExactAnyGraph"], []), None, "LExactAnyGraph"))
+    if not quick:
+        out.append(("SearchLayer_premise_4", "MC_SearchLayer", make_cfg("SpecLayer", dict(small, LN=4, LEfs="{0, 2}", Premise="TRUE"), ["LSound", "LExact"], []), None, None))
+
+    def one(job):
+        name, module, cfg, extra, expect = job
+        r = run_tlc(module, name + ".cfg", cfg_text=cfg, workers=4, timeout=900 if quick else 2400, extra_files=extra)
+        return name, expect, r
+
+    return out, one
+
+
+def finish_design(chk, results):
+    for name, expect, r in results:
+        if expect:
+            # a configuration that MUST fail: the premise of LExact is not vacuous
+            chk.cov["tlc_runs"].append({"config": name, "expected_violation": expect, "violated": r.violated, "distinct_states": r.distinct, "wall_s": round(r.wall, 1)})
+            if r.violated != expect:
+                chk.infra.append("%s: expected %s to be violated without the premise, TLC says %s" % (name, expect, r.violated or "no error"))
+        else:
+            chk.add_tlc(name, r)
+
+
+# ------------------------------------------------------------------ verdicts
+
+def view_of(beh):
+    """behaviour view for vlib.match_known: operation names carry the insertion path (Batch:block)."""
+    steps = []
+    for s in beh["steps"]:
+        o = s["op"]
+        n = o["op"] + (":" + o["path"] if o["op"] in ("Batch", "Import") and o.get("path") else "")
+        steps.append({"op": {"op": n}})
+    return {"steps": steps}
+
+
+def judge(chk, prop, fam, divs, stats):
+    bmap = {b["id"]: b for b in fam.behaviours}
+    divs = sorted(divs, key=lambda d: (d["step"], len(bmap.get(d["id"], {"steps": []})["steps"]), d["id"]))
+    reported = set()
+    for div in divs:
+        own = OWNER.get(div["kind"])
+        if div["kind"] == "restart_changed_contents":
+            stats["restart_changed_contents"] = stats.get("restart_changed_contents", 0) + 1   # the restart property's (C01)
+            continue
+        if own != prop:
+            stats["other_property"] = stats.get("other_property", 0) + 1
+            continue
+        beh = bmap.get(div["id"])
+        kf = vlib.match_known(prop, div, view_of(beh) if beh else None)
+        if kf:
+            chk.known.append((kf["id"], kf["what"]))
+            stats["known"] = stats.get("known", 0) + 1
+            continue
+        key = (div["kind"], (div.get("op") or {}).get("op"), tuple(s["op"]["op"] for s in beh["steps"][: div["step"] + 1]) if beh else ())
+        if key in reported:
+            continue
+        reported.add(key)
+        if len(chk.violations) < 20:
+            hist = [s["op"] for s in beh["steps"][: div["step"] + 1]] if beh else []
+            what = "%s at step %d: %s\n%s\n%s\nhistory: %s" % (div["kind"], div["step"], json.dumps(div.get("op")), div.get("detail", ""),
+                                                            "\n".join(div.get("diff") or []), json.dumps(hist))
+            chk.violation(what, {"property": prop, "checker": "vsearch-replay", "family": {"name": fam.name, "pname": fam.pname, "ds": fam.ds, "nids": fam.nids,
+                                                                                        "graph": fam.graph, "maxops": fam.maxops},
+                                 "behaviour": beh, "divergence": div})
+
+
+def judge_traces(chk, prop, divs, stats):
+    for div in divs:
+        if OWNER.get(div["kind"]) != prop:
+            continue
+        kf = vlib.match_known(prop, div, None)
+        if kf:
+            chk.known.append((kf["id"], kf["what"]))
+            continue
+        plan = div.pop("plan")
+        chk.violation("%s in %s\n%s" % (div["kind"], div["id"], div["detail"]), {"property": prop, "checker": "vsearch-trace", "plan": plan, "divergence": div})
+
+
+# ------------------------------------------------------------------ the check
+
+def families(tier, rng):
+    quick = tier == "quick"
+    fams = []
+    for pname in PROFILES:
+        metric = PROFILES[pname]["metric"]
+        eq = pname == "ci8"
+        if quick:
+            fams.append(Family("%s_d2" % pname, pname, make_dataset(rng, metric, 2, 4, eq), 4, False, 3, walks=100, walk_depth=7, max_behaviours=600))
+        else:
+            fams.append(Family("%s_d2" % pname, pname, make_dataset(rng, metric, 2, 4, eq), 4, False, 4, walks=600, walk_depth=8, max_behaviours=None))
+            fams.append(Family("%s_d3" % pname, pname, make_dataset(rng, metric, 3, 4, eq), 4, False, 3, walks=300, walk_depth=8, max_behaviours=None))
+    for pname in (("e32",) if quick else ("e32", "c32")):
+        fams.append(Family("%s_graph" % pname, pname, make_dataset(rng, PROFILES[pname]["metric"], 2, 3), 3, True, 4 if quick else 5,
+                           walks=60 if quick else 300, walk_depth=8, max_behaviours=350 if quick else 6000))
+    return fams
+
+
+def run(prop, tier):
+    chk = Check(prop, tier)
+    rng = random.Random(vlib.seed())
+    quick = tier == "quick"
+    work = vlib.scratch("search-")
+    stats, totals = {}, {}
+    try:
+        build_vsearch()
+        pool = ThreadPoolExecutor(max_workers=6)
+        # design level and the backward binding run beside the forward binding
+        jobs, one = design(chk, quick)
+        design_f = [pool.submit(one, j) for j in jobs]
+        seeds = [vlib.seed()] if quick else [vlib.seed() * 100 + i for i in range(5)]
+        plans = recall_plans(list(PROFILES), seeds, work, 80, 64, 64, 12, 6) if quick else recall_plans(list(PROFILES), seeds, work)
+        back_f = pool.submit(backward, chk, prop, plans, stats, 4 if quick else 8)
+
+        fams = families(tier, rng)
+
+        def prepare(fam):
+            corpus = hist_run(chk, fam, 4)
+            n = select_behaviours(fam, corpus, random.Random(vlib.seed()))
+            fam.contents = oracle_run(chk, fam, 4)
+            return fam, n
+
+        prepared = list(ThreadPoolExecutor(max_workers=4).map(prepare, fams))
+        fam_cov = []
+        for fam, nrec in prepared:
+            divs = replay_family(chk, fam, totals, light=not quick and fam.maxops >= 4, work=work)
+            judge(chk, prop, fam, divs, stats)
+            fam_cov.append({"family": fam.name, "profile": fam.pname, "data": fam.ds["data"], "foreign_queries": fam.ds["foreign"],
+                            "histories_enumerated_by_tlc": fam.hist_states, "corpus_records": nrec, "behaviours_replayed": len(fam.behaviours),
+                            "contents_tabulated": fam.contents, "bound": "ids=%d MaxOps=%d (exhaustive) + %d random walks of depth %d%s" % (
+                                fam.nids, fam.maxops, fam.walks, fam.walk_depth, ", graph links" if fam.graph else "")})
+        tdivs = back_f.result()
+        judge_traces(chk, prop, tdivs, stats)
+        finish_design(chk, [f.result() for f in design_f])
+        pool.shutdown()
+
+        chk.cov["traces_validated_against_impl"] = totals.get("behaviours", 0) + stats.get("traces", 0)
+        chk.cov["evaluations"] = totals.get("checks", 0) + stats.get("trace_searches", 0)
+        chk.cov["distinct_nontrivial"] = totals.get("exact_checks", 0) if prop == "C07" else totals.get("nontrivial", 0) + totals.get("score_checks", 0)
+        chk.cov["exhaustive"] = not quick
+        chk.cov["binding"] = dict(totals, **{k: v for k, v in stats.items()})
+        chk.cov["families"] = fam_cov
+        chk.cov["recall_floors_percent"] = FLOORS
+        chk.cov["recall_minima_measured_when_floors_were_fixed"] = MEASURED
+        if fam_cov:
+            b = prepared[0][0].behaviours
+            chk.cov["samples"] = [[s["op"] for s in x["steps"]] for x in b[:2]]
+        # vacuity guards
+        need = [("behaviours", 100), ("searches", 10000), ("exact_checks", 5000), ("score_checks", 5000), ("filtered", 100),
+                ("scoped", 50), ("textual", 100), ("block_batches", 10), ("restarts", 10)]
+        for key, least in need:
+            if totals.get(key, 0) < least:
+                chk.infra.append("vacuous coverage: %s = %s" % (key, totals.get(key, 0)))
+        if stats.get("traces", 0) < len(plans):
+            chk.infra.append("only %d of %d traces validated" % (stats.get("traces", 0), len(plans)))
+        chk.cov["rule"] = (
+            "forward: per family TLC enumerates every history of the bound (SpecHist; first adds in id order, which vector meets which is varied by the "
+            "data set) plus random walks; leaves of the prefix tree are replayed on a real engine (M=2, efConstruction=3 so that 2*M=4 nodes and the "
+            "block path of AddBatch are reachable); after EVERY step the battery is issued: every stored vector and 3 foreign lattice points x "
+            "k in {1,2,live+1} x efSearch in {0,1,50} x 8 filters (x graph scopes in the graph families) through VSearch, VSearchGraph, "
+            "VSearchWithScores, plus text-only / CONTAINS / hybrid searches and VFilter; every answer is judged with the sets tabulated by TLC "
+            "(SpecOracle): admissible set, tie classes, TopKSets. backward: %d traces (4 profiles x seeds, ~290 vectors, dimensions 2..8) "
+            "validated by TLC (Trace_Search). non-trivial = %s" % (
+                len(plans), "exactness checks in the small regime" if prop == "C07" else "searches whose admissible set is a proper non-empty subset of the live ids + score recomputations"))
+        chk.assumptions += [
+            "vectors lie on an integer lattice (euclid: components -3..3; cosine: -2..2 in dimension 2, -1..1 in dimension 3, so that distinct cosines differ by >= 0.05); "
+            "distinct distances are therefore separated by far more than the precision's tolerance and ties are exact",
+            "an index created as int8 is fed vectors whose non-zero components have one magnitude (and, on the unchanged tree, scaled to the same largest "
+            "component): its quantizer is trained on the first vector alone and clipping (allowed, C18) must not change directions; on int8 indexes searches "
+            "whose query or candidates fall outside the trained range are exempt from the score / order / exactness checks (counted: out_of_trained_range)",
+            "metadata is a fixed function of the id (MetaOf); filter semantics beyond the 8 filters of the basis is C08's subject, graph reachability beyond the 8 scopes is C11's",
+            "histories are sequential: the background refine started by VImportCommit is awaited before the next operation (its race with a concurrent Add is "
+            "reported separately); searches concurrent with writers are not covered here (C13 validates concurrent traces)",
+            "a restart that does not bring the contents back (VGet differs from the specification) is attributed to C01 and ends the behaviour (counted: restart_changed_contents)",
+            "tomb / ctr of the specification are upper bounds after a restart (a log replay drops tombstones), so the small regime is never claimed wrongly",
+            "text and hybrid searches are judged for admissibility (and the fused score for its bounds) only: BM25 ranking is outside Search.tla",
+            "recall floors are regression detectors fixed with a wide margin below the minima measured over 80 traces; recall on float data sets and dimensions above 8 is not covered",
+        ]
+        return chk.finish()
+    finally:
+        shutil.rmtree(work, ignore_errors=True)
+
+
+# ------------------------------------------------------------------ replay of a recorded violation
+
+def replay_file(prop, path):
+    rec = json.load(open(path))
+    chk = Check(prop, "replay")
+    work = vlib.scratch("search-replay-")
+    try:
+        if rec.get("checker") == "vsearch-trace":
+            plan = dict(rec["plan"], trace=os.path.join(work, "trace.ndjson"))
+            divs = backward(chk, prop, [plan], {}, 1)
+            divs = [d for d in divs if OWNER.get(d["kind"]) == prop]
+            for d in divs:
+                d.pop("plan", None)
+            print(json.dumps({"plan": plan, "divergences": divs}, indent=1))
+        else:
+            f = rec["family"]
+            fam = Family(f["name"], f["pname"], f["ds"], f["nids"], f["graph"], f["maxops"])
+            fam.behaviours = [rec["behaviour"]]
+            oracle_run(chk, fam, 2)     # the expected sets are regenerated from the specification
+            alld = replay_family(chk, fam, {}, light=False, work=work)
+            divs = [d for d in alld if OWNER.get(d["kind"]) == prop]
+            print(json.dumps({"history": [s["op"] for s in rec["behaviour"]["steps"]], "divergences": divs[:30]}, indent=1))
+        if chk.infra:
+            raise Infra("; ".join(chk.infra))
+        if divs:
+            print("VIOLATION property=%s replay=%s" % (prop, path))
+            return vlib.EXIT_VIOLATION
+        print("replay: no divergence on the current tree (graph construction is randomised: repeat the replay)")
+        return vlib.EXIT_OK
+    finally:
+        shutil.rmtree(work, ignore_errors=True)
+
+
+def main(prop):
+    if len(sys.argv) > 2 and sys.argv[1] == "--replay":
+        vlib.main_wrapper(lambda: replay_file(prop, sys.argv[2]))
+    tier = sys.argv[1] if len(sys.argv) > 1 else os.environ.get("VERIF_TIER", "quick")
+    vlib.main_wrapper(lambda: run(prop, tier))
